@@ -6,14 +6,19 @@ pub mod c01;
 pub mod c02;
 pub mod c03;
 pub mod c06;
+pub mod c07;
 pub mod c08;
 pub mod c09;
 pub mod c13;
 pub mod c15;
 pub mod c16;
+pub mod c17;
+pub mod c19;
+pub mod c20;
+pub mod netcode_util;
 
 pub fn all() -> Vec<&'static PropInfo> {
-    vec![&c01::INFO, &c02::INFO, &c03::INFO, &c06::INFO, &c08::INFO, &c09::INFO, &c13::INFO, &c15::INFO, &c16::INFO]
+    vec![&c01::INFO, &c02::INFO, &c03::INFO, &c06::INFO, &c07::INFO, &c08::INFO, &c09::INFO, &c13::INFO, &c15::INFO, &c16::INFO, &c17::INFO, &c19::INFO, &c20::INFO]
 }
 
 pub fn find(id: &str) -> Option<&'static PropInfo> {
